@@ -86,6 +86,13 @@ def capAtIssuer (i : VIn) (na : Int) : Except VErr Int :=
       | .err => .error .naBeyondCA
     else .ok na
 
+/-- a CEL role (`cel/issue/<role>`, `cel/sign/<role>`): the program computes the template's NotAfter itself; the issuer's
+`leaf_not_after_behavior` is applied to it like to a classic role's (`applyLeafNotAfterBehavior`, repair F75) -/
+def celNotAfter (now na caNA : Int) (beh : LNAB) : Except VErr Int :=
+  capAtIssuer { now, reqTTL := 0, reqNotAfter := none, roleNotAfter := none, nab := .permit, roleTTL := 0, roleMaxTTL := 0,
+                mountDefault := 0, mountMax := 0, issuer := some (caNA, beh), reqNotBefore := none, roleNotBefore := none,
+                nbb := .permit, nbd := 0 } na
+
 /-- the last test: an explicit timestamp as `not_after_bound` -/
 def boundByTimestamp (i : VIn) (na : Int) : Except VErr Int :=
   match i.nab with
@@ -148,15 +155,19 @@ def issueValidity (unit : Int) (i : VIn) : Except VErr (Int × Int) :=
       else if nb = na then .error .nbEqual
       else .ok (nb, na)
 
-/-- validity of a certificate made by `signCertificate` (sign, sign-verbatim): an explicit NotBefore is
-computed (and may be refused) but not used, and the order of the two instants is not checked -/
-def signValidity (unit : Int) (i : VIn) : Except VErr (Int × Int) :=
+/-- validity of a certificate made by `signCertificate` (sign, sign-verbatim) BEFORE the repair F74: an explicit
+NotBefore was computed (and could be refused) but not used, and the order of the two instants was not checked -/
+def signValidityIgnoringNotBefore (unit : Int) (i : VIn) : Except VErr (Int × Int) :=
   match getNotBefore i with
   | .error e => .error e
   | .ok _ =>
     match getNotAfter i with
     | .error e => .error e
     | .ok na => .ok (if i.nbd > 0 then i.now - i.nbd else i.now - sec30 unit, na)
+
+/-- validity of a certificate made by `signCertificate` (sign, sign-verbatim): the same precedence and the same two
+checks as the issue path -/
+def signValidity (unit : Int) (i : VIn) : Except VErr (Int × Int) := issueValidity unit i
 
 /-- whole seconds as X.509 encodes them (`unit` ticks per second, `unit > 0`) -/
 def truncSec (unit : Int) (t : Int) : Int := t / unit
